@@ -23,7 +23,9 @@ RULE = (
     '/ deriver world, and structural worlds (delete / divide / move / '
     'generate / add at tick k, victim timestep 1 or 3 so that the worker '
     'is idle, due in the same batch or in flight; small and pipe-buffer-'
-    'exceeding updates) x EVERY subset of processes/steps marked _parallel '
+    'exceeding updates), structural histories of explorer B\'s menu '
+    '(length 1, thorough 2) with all compartment processes in workers, '
+    'x EVERY subset of processes/steps marked _parallel '
     'x stop points: end() after driver call k for every k, end() twice, '
     'engine dropped without end() + gc, exception injected at the j-th '
     'callback of a serial or a parallel process followed by end() in a '
@@ -355,7 +357,13 @@ def judge(case, serial, par, acc, expect_error=None):
           f'{case}: did not finish within the watchdog')
         return
     pend = [u for u in par['unraisable'] if 'pending' in u]
-    if tag.startswith('struct:divcopy') and par['error'] is not None \
+    flags = case.get('flags', {})
+    divcopy = tag.startswith('struct:divcopy') or flags.get('divcopy')
+    busy_move = (tag.startswith('struct:mov:') and (
+        ':due' in tag or ':inflight' in tag)) or flags.get('busy_move')
+    if divcopy and par['error'] is not None and (
+            'ickl' in str(par['error'])
+            or "command ('is_step'" in str(par['error'])) \
             and serial['error'] is None and not par['leaked'] \
             and par['end_error'] is None:
         # copying a parallel process never works (K8): TypeError from
@@ -367,8 +375,7 @@ def judge(case, serial, par, acc, expect_error=None):
     for which in ('error', 'end_error'):
         e = par[which]
         if e is not None and 'still pending' in str(e):
-            if tag.startswith('struct:mov:') and (
-                    ':due' in tag or ':inflight' in tag):
+            if busy_move:
                 V('C13.pending', 'still-pending-after-move-of-busy-process',
                   f'{case}: {e!r}'[:500])
                 return
@@ -418,6 +425,43 @@ def judge(case, serial, par, acc, expect_error=None):
             return
 
 
+def _parallel_tree(tree):
+    for k, v in tree.items():
+        if isinstance(v, dict) and 'cls' in v:
+            if v.get('pid') == 'proc':
+                v['_parallel'] = True
+        elif isinstance(v, dict):
+            _parallel_tree(v)
+
+
+def _parallel_template(tpl):
+    if isinstance(tpl, dict):
+        if '$probes' in tpl:
+            _parallel_tree(tpl['$probes'])
+        else:
+            for v in tpl.values():
+                _parallel_template(v)
+    elif isinstance(tpl, list):
+        for v in tpl:
+            _parallel_template(v)
+
+
+def hist_world(history, issuer, ts_pair, parallel):
+    """A C10 world (compartments with an inner process; operator issuing
+    one structural operation per tick) with the inner processes - also the
+    generated ones - run in workers."""
+    from vmc.props import C10
+    spec = C10.world(C10.INITS[0], history, issuer, 'proc',
+                     {'a': ts_pair[0], 'b': ts_pair[1]}, False,
+                     len(history) + 3)
+    spec.pop('entry', None)
+    if parallel:
+        _parallel_tree(spec['processes'])
+        where = spec['steps'] if issuer == 'step' else spec['processes']
+        _parallel_template(where['op']['update'])
+    return spec
+
+
 def subsets(names):
     out = []
     for k in range(1, len(names) + 1):
@@ -446,6 +490,17 @@ def run_job(job, acc):
         _, n_ticks, par, stop = job
         spec, names = steps_world(n_ticks)
         tag = f'steps:{stop[0]}'
+    elif kind == 'hist':
+        _, history, issuer, ts_pair = job
+        spec = hist_world(history, issuer, ts_pair, False)
+        par = ('inner',)
+        stop = ('full',)
+        names_ = '+'.join(o[0] for o in history)
+        tag = 'hist:' + names_
+        flags = {'divcopy': any(o[0] == 'div' for o in history),
+                 'busy_move': any(o[0] in ('mov', 'movupd')
+                                  for o in history) and (
+                     3 in ts_pair or issuer == 'process')}
     elif kind == 'fault':
         _, procs, n_ticks, par, who, j = job
         spec, names = sched_world(procs, n_ticks)
@@ -464,9 +519,13 @@ def run_job(job, acc):
         tag = f'struct:{op[0]}:{status}' + (':big' if payload else '') + (
             ':op-first' if op_first else '')
     case = {'job': job, 'tag': tag}
+    if kind == 'hist':
+        case['flags'] = flags
     serial_spec = copy.deepcopy(spec)
     serial = run_world(serial_spec, stop)
-    if kind == 'struct':
+    if kind == 'hist':
+        pspec = hist_world(history, issuer, ts_pair, True)
+    elif kind == 'struct':
         pspec = struct_world(op, tick, ts,
                              job[8] if len(job) > 8 else True,
                              payload, n_ticks, issuer, op_first)
@@ -527,6 +586,15 @@ def jobs(ctx):
                         if issuer == 'process':
                             out.append(('struct', op, tick, ts, payload,
                                         issuer, n_ticks + 1, True))
+    # structural histories of length 1-2 (explorer B's menu) with the
+    # compartments' processes in workers
+    hists, _, _ = st.enumerate_histories(
+        {'X': ['a', 'b'], 'Y': []}, 'proc', 1 if ctx.quick else 2,
+        with_pairs=False, gen_kind='proc')
+    for h in hists:
+        for issuer in ('step', 'process'):
+            for ts_pair in ((1, 1), (3, 1)):
+                out.append(('hist', h, issuer, ts_pair))
     for sub in (('q1',), ('q2',), ('q1', 'q2')):
         for tick in (0, 1):
             for issuer in ('process', 'step'):
